@@ -130,6 +130,8 @@ def harnesses(tier, seed):
                 for owners in owner_tables(n, t, c):
                     for cv in cvs:
                         for term in ("collect_vec", "collect_x", "collect_into_vec", "collect"):
+                            if term == "collect_x" and ty in ("FL", "FLF") and n > 2:
+                                continue   # flat_map col_x kernel at n = 3: > 20 GB / > 25 min per query
                             bucket.append(h(term, ty, n, t, c, owners, cv))
             light.append(h("collect_into_split", ty, 3, 2, 1, [1, 0, 1], (1, 1, 1)))
             light.append(h("collect_vec", ty, 2, 1, 1, None, (1, 1)))
